@@ -57,6 +57,8 @@ enum Op {
     BoxRoundTrip,
     CloneIt,
     Atomic(bool, Vec<AOp>),
+    /// Writes garbage, through the safe `as_mut_slice`, into the backend bits beyond the contents.
+    Scribble(u64),
 }
 
 fn oob_index(k: u8, len: usize) -> usize {
@@ -124,6 +126,7 @@ fn decode(u: &mut Unstructured, wbits: usize, is_usize: bool) -> (usize, Init, V
             36 => Op::NeOne(sel),
             37 => Op::NeWidth,
             38 => Op::FromSliceAll,
+            40 => Op::Scribble(u.arbitrary::<u64>().unwrap_or(!0) | 1),
             39 => {
                 if sel % 2 == 0 {
                     Op::BoxRoundTrip
@@ -605,6 +608,30 @@ fn run_w<W: C05Ext>(u: &mut Unstructured, cx: &mut Ctx) -> R {
             Op::CloneIt => {
                 let c = cx.must("clone", || v.clone())?;
                 observe(cx, &c, &model, width, false)?;
+            }
+            Op::Scribble(pat) => {
+                // "nothing is assumed about the content of the backend outside the bits of the vector"
+                let used = len * width;
+                let mut x = *pat;
+                let dirtied = cx.must("as_mut_slice", || {
+                    let s = BitFieldSliceMut::as_mut_slice(&mut v);
+                    let mut dirtied = false;
+                    for (i, w) in s.iter_mut().enumerate() {
+                        let lo = i * W::WBITS;
+                        if lo + W::WBITS <= used {
+                            continue;
+                        }
+                        x ^= x << 13;
+                        x ^= x >> 7;
+                        x ^= x << 17;
+                        let g = ((x as u128) << 64 | x.rotate_left(29) as u128) & mask128(W::WBITS);
+                        let keep = if used > lo { mask128(used - lo) } else { 0 };
+                        *w = W::from128((w.to128() & keep) | (g & !keep));
+                        dirtied = true;
+                    }
+                    dirtied
+                })?;
+                cx.label_if(dirtied, "scribbled_beyond_len");
             }
             Op::Atomic(boxed, script) => {
                 cx.label("atomic");
